@@ -9,6 +9,7 @@ package main
 
 import (
 	"fmt"
+	"os"
 	"sync"
 	"sync/atomic"
 
@@ -124,7 +125,7 @@ func main() {
 		"consensus sizes <= 40 and factor <= 3, so the adjusted quota fits uint32",
 	)
 	r.MinShapes(40)
-	nCases := r.N(3000, 30000)
+	nCases := r.N(2000, 30000)
 	var status statusRecorder
 
 	r.Parallel(nCases, func(c *vk.Case) {
@@ -340,9 +341,13 @@ func main() {
 	})
 	r.Extra("status_handler_resets_seen", atomic.LoadInt64(&status.resets))
 	r.Extra("status_handler_quota_reports_seen", atomic.LoadInt64(&status.quotas))
-	if races := vk.CollectRaces(); races != nil {
-		r.Extra("race_reports", races)
+	// race-detector reports are evidence only for this property (it does not state race-freedom)
+	r.Extra("race_detector_active", os.Getenv("VERIF_RACE_LOG") != "")
+	races := vk.CollectRaces()
+	if races == nil {
+		races = []vk.RaceReport{}
 	}
+	r.Extra("race_reports", races)
 	r.Finish()
 }
 
